@@ -84,6 +84,17 @@ func main() {
 	case "rules":
 		dumpRules(repo)
 		return
+	case "validate-theory":
+		e, err := loadEngine(repo, repoPatterns)
+		if err != nil {
+			fmt.Fprintln(os.Stderr, "load:", err)
+			os.Exit(2)
+		}
+		dirs := os.Args[2:]
+		if len(dirs) == 0 {
+			dirs = defaultCorpus(repo)
+		}
+		os.Exit(validateTheory(e, dirs))
 	case "dump", "vc", "list":
 		e, err := loadEngine(repo, repoPatterns)
 		if err != nil {
